@@ -14,6 +14,8 @@ func init() {
 			"(R-C14-RECHECK) the sweep removes a key of a grabbed bucket only on the side of its re-check where the store's current expiration, fetched after the grab, is non-zero and not after now (the repaired finding F4 is the non-zero half); " +
 			"(R-C14-LAG) cleanupBucket(t) = storageBucket(t) - 1; the sweep takes the buckets (lastCleaned, cleanupBucket(now)], removes each from the index under the lock before using it and advances lastCleanedBucketNum under the same lock; add/update/del compute the bucket of an expiration with storageBucket only; " +
 			"(R-C14-INDEX) every overwrite/insert/delete of a map entry moves its key between buckets with the entry's old and new expirations, on the same path and under the shard write lock, and never when the map is left unchanged (shared with C13); " +
+			"(R-C14-BUCKETS) the index's own bookkeeping: add/update/del file and unfile key → conflict in the bucket of the given expiration, update unfiles from the old bucket before filing in the new one; " +
+			"(R-C14-ARMS) the applier's itemUpdate arm calls policy.Update (never Add), so a swept key is not re-admitted by a late cost update; " +
 			"(R-C14-ONCE) per swept key one policy.Del, one store.Del and one report; the cost is read from the policy before it is deleted; the reported item carries that cost, the re-checked expiration and the value store.Del returned; " +
 			"(R-C14-TICK) the applier's select has an arm on cleanupTicker.C that calls storedItems.Cleanup(c.cachePolicy, onEvict); the ticker is created in NewCache from TtlTickerDurationInSec, defaulted when zero. " +
 			"NOT decided: eventual removal (needs the applier to keep running: liveness) and the wall-clock side of 'has passed'.",
@@ -24,14 +26,17 @@ func init() {
 func runC14(c *Ctx) {
 	L, P := c.L, c.P
 	L.Rule("R-C14-RECHECK", "sweep removes only keys whose current expiration is non-zero and not after now", 1)
-	L.Rule("R-C14-LAG", "cleanupBucket = storageBucket-1; sweep range and cursor under the lock; one bucket function for add/update/del", 6)
+	L.Rule("R-C14-LAG", "cleanupBucket = storageBucket-1; sweep range and cursor under the lock; one bucket function for add/update/del; every cursor writer uses cleanupBucket", 7)
 	L.Rule("R-C14-INDEX", "map mutation and expiry-index call paired on every path (shared with C13)", 3)
+	L.Rule("R-C14-BUCKETS", "expirationMap.add/update/del file key → conflict in m.buckets[storageBucket(expiration)], old bucket first, under the index lock", 3)
+	L.Rule("R-C14-ARMS", "a buffered cost update can only adjust a tracked key (policy.Update on the itemUpdate arm, never Add): a key reclaimed by the sweep is not re-admitted behind its back and evicted a second time", 3)
 	L.Rule("R-C14-ONCE", "one policy.Del, one store.Del, one report per swept key; cost read first; reported fields", 3)
 	L.Rule("R-C14-TICK", "applier arm on cleanupTicker.C calls store.Cleanup(policy, onEvict); ticker from TtlTickerDurationInSec (defaulted)", 2)
 
 	sweepRecheckRule(c, "R-C14-RECHECK")
 
 	// ---- R-C14-LAG
+	sweepCursorRule(c, "R-C14-LAG")
 	c.Group("R-C14-LAG", "bucket functions", func() {
 		sb := P.Fn("ristretto", "", "storageBucket")
 		cb := P.Fn("ristretto", "", "cleanupBucket")
@@ -157,6 +162,8 @@ func runC14(c *Ctx) {
 	})
 
 	expIndexRule(c, "R-C14-INDEX")
+	bucketIndexRule(c, "R-C14-BUCKETS")
+	applierArmsRule(c, "R-C14-ARMS")
 
 	// ---- R-C14-ONCE
 	sweepOnceRule(c, "R-C14-ONCE")
@@ -233,7 +240,7 @@ func runC14(c *Ctx) {
 				continue
 			}
 			n++
-			if countCalls(p, tb, "call[iface:store.Cleanup](fld[storedItems](p[0]),fld[cachePolicy](p[0]),closure[Cache.processItems$2])", nil) != 1 {
+			if countCalls(p, tb, "call[iface:store.Cleanup](fld[storedItems](p[0]),fld[cachePolicy](p[0]),closure["+fname(P.ApplierOnEvict())+"])", nil) != 1 {
 				ok = false
 			}
 		}
@@ -266,4 +273,124 @@ func runC14(c *Ctx) {
 		L.Check(fromCfg && stored && defaulted, "R-C14-TICK", "NewCache#ticker", "cleanupTicker = NewTicker(f(TtlTickerDurationInSec)), defaulted to bucketDurationSecs when 0",
 			fmt.Sprintf("ticker set-up is wrong (from config:%v stored in cache:%v defaulted when zero:%v): a zero period panics NewTicker, a foreign ticker is never fired", fromCfg, stored, defaulted), tickers[0].Pos())
 	})
+}
+
+// bucketIndexRule: the expiry index's own bookkeeping (expirationMap.add/update/del). A key is
+// filed in bucket storageBucket(expiration) under (key → conflict); update removes it from the old
+// bucket BEFORE filing it in the new one (same-bucket refresh must not erase it); del removes it from
+// the bucket of the expiration it was filed under. Shared by C14, C13 and C07.
+func bucketIndexRule(c *Ctx, ruleID string) {
+	L, P := c.L, c.P
+	type spec struct {
+		name           string
+		oldExp, newExp string // parameter terms ("" if not applicable)
+	}
+	for _, sp := range []spec{{"add", "", "p[3]"}, {"update", "p[3]", "p[4]"}, {"del", "p[2]", ""}} {
+		sp := sp
+		c.Group(ruleID, "expirationMap."+sp.name, func() {
+			fn := P.Fn("ristretto", "expirationMap", sp.name)
+			L.Analysed(fname(fn))
+			lc := newLockCtx(P, "ristretto")
+			tb := lc.tb(fn)
+			nilEdges := edgesWhere(fn, tb, "eq(p[0],c[nil])", nil, true)
+			bucketOf := func(exp string) string {
+				return "lookup(fld[buckets](p[0]),call[storageBucket](" + exp + "))"
+			}
+			var insert *ssa.MapUpdate
+			var del *ssa.Call
+			problems := []string{}
+			eachInstr(fn, func(in ssa.Instruction) {
+				switch x := in.(type) {
+				case *ssa.MapUpdate:
+					if recvName(x.Map.Type()) != "bucket" {
+						return
+					}
+					mt := tb.T(x.Map).String()
+					if sp.newExp == "" {
+						problems = append(problems, "files a key although it has no new expiration")
+						return
+					}
+					if tb.T(x.Key).String() != "p[1]" || tb.T(x.Value).String() != "p[2]" {
+						problems = append(problems, "files "+tb.T(x.Key).String()+" → "+tb.T(x.Value).String()+" instead of key → conflict")
+					}
+					if !strings.Contains(mt, bucketOf(sp.newExp)) {
+						problems = append(problems, "files the key in bucket "+mt+", not in m.buckets[storageBucket(new expiration)]")
+					}
+					if strings.Contains(mt, "make[") {
+						// a fresh bucket must itself be stored in the index under the same number
+						stored := false
+						for _, mu := range mapUpdatesOf(fn, tb, "fld[buckets](p[0])") {
+							if tb.T(mu.Key).String() == "call[storageBucket]("+sp.newExp+")" && strings.HasPrefix(tb.T(mu.Value).String(), "make[") {
+								stored = true
+							}
+						}
+						if !stored {
+							problems = append(problems, "a freshly made bucket is not stored in m.buckets under storageBucket(new expiration)")
+						}
+					}
+					if insert != nil {
+						problems = append(problems, "more than one filing")
+					}
+					insert = x
+				case *ssa.Call:
+					if calleeName(&x.Call) != "delete" || recvName(x.Call.Args[0].Type()) != "bucket" {
+						return
+					}
+					if sp.oldExp == "" {
+						problems = append(problems, "unfiles a key although it has no old expiration")
+						return
+					}
+					if tb.T(x.Call.Args[1]).String() != "p[1]" || !strings.Contains(tb.T(x.Call.Args[0]).String(), bucketOf(sp.oldExp)) {
+						problems = append(problems, "unfiles "+tb.T(x.Call.Args[1]).String()+" from "+tb.T(x.Call.Args[0]).String()+", not the key from m.buckets[storageBucket(old expiration)]")
+					}
+					if del != nil {
+						problems = append(problems, "more than one unfiling")
+					}
+					del = x
+				}
+			})
+			isIns := func(in ssa.Instruction) bool { return insert != nil && in == ssa.Instruction(insert) }
+			isDel := func(in ssa.Instruction) bool { return del != nil && in == ssa.Instruction(del) }
+			if sp.oldExp != "" {
+				if del == nil {
+					problems = append(problems, "never unfiles the key from its old bucket")
+				} else {
+					absent := edgesWhere(fn, tb, "ok("+bucketOf(sp.oldExp)+")", nil, false)
+					// the unfiling precedes every return and the filing, except when the old bucket does not exist
+					if r, path := reach(entryPos(fn), func(in ssa.Instruction) bool { return isReturn(in) || isIns(in) }, isDel, cutSet(nilEdges, absent)); r != nil {
+						what := "returns"
+						if isIns(r) {
+							what = "files the key under its new expiration"
+						}
+						problems = append(problems, "on block path "+pathString(path)+" it "+what+" before unfiling it from the old bucket: a refresh that lands in the same bucket erases the key from the index (never swept)")
+					}
+					if !lc.At(del).HasClass("expirationMap.RWMutex", "W") {
+						problems = append(problems, "unfiling without the index lock")
+					}
+				}
+			}
+			if sp.newExp != "" {
+				if insert == nil {
+					problems = append(problems, "never files the key")
+				} else {
+					zero := edgesWhere(fn, tb, "call[time.Time.IsZero]("+sp.newExp+")", nil, true)
+					if r, path := reach(entryPos(fn), isReturn, isIns, cutSet(nilEdges, zero)); r != nil {
+						problems = append(problems, "a key with a non-zero expiration is not filed on block path "+pathString(path))
+					}
+					nonzero := edgesWhere(fn, tb, "call[time.Time.IsZero]("+sp.newExp+")", nil, false)
+					if r, _ := reach(entryPos(fn), isIns, nil, cutSet(nonzero)); r != nil || len(nonzero) == 0 {
+						problems = append(problems, "a key with a zero expiration (no TTL) can be filed")
+					}
+					if !lc.At(insert).HasClass("expirationMap.RWMutex", "W") {
+						problems = append(problems, "filing without the index lock")
+					}
+				}
+			}
+			if len(problems) > 0 {
+				L.Fail(ruleID, "expirationMap."+sp.name, strings.Join(problems, "; "), fn.Pos())
+				return
+			}
+			L.Ok(ruleID, "expirationMap."+sp.name, "key → conflict filed in / removed from m.buckets[storageBucket(expiration)] on every path that must, old bucket first, under the index lock", fn.Pos())
+		})
+	}
 }
